@@ -85,13 +85,19 @@ def run(ctx):
     # ---------------- clause 2: no fabricated values ------------------------------------------------------------------
     ctx.rule('C20.2-no-truncation', 'a term field narrowed to u8/u32/i32 in a from_term is range-checked (an out-of-range field must be rejected, not wrapped into a plausible value); zero sites today, the rule is exercised on the positive fixture every run')
     ctx.rule('C20.2-validated', 'a wrapper that has a validating constructor (try_new) builds its from_term result through it, so out-of-range calendar fields are rejected', floor=2)
+    roots = []
     for p in sorted(ctx.F.bodies):
         if not p.startswith(CR):
             continue
         base = p.split('::{')[0]
         if base.rsplit('::', 1)[-1] in ('from_term', 'try_from_term', 'from_map', 'parse') or 'from_term' in base:
-            if ctx.F.bodies[p]['kind'] in ('Fn', 'AssocFn', 'Closure'):
-                check_casts(ctx, P.B(p), 'C20.2-no-truncation', include_float=False)
+            roots.append(p)
+    # the conversion functions and every helper of the crate they call (field extraction is often factored out)
+    scope = sorted(q for q in P.reachable_from(roots) if q.startswith(CR) and ctx.F.bodies[q]['kind'] in ('Fn', 'AssocFn', 'Closure'))
+    ctx.anchor(len(roots) >= 6, 'from_term conversions (>= 6)')
+    for q in scope:
+        check_casts(ctx, P.B(q), 'C20.2-no-truncation', include_float=False)
+    ctx.info_note('C20.2-no-truncation scanned %d functions reachable from %d from_term conversions' % (len(scope), len(roots)))
     for name, path in WRAPPERS.items():
         ty = CR + path
         if P.B(ty + '::try_new') is None:
@@ -115,6 +121,48 @@ def run(ctx):
         if p.startswith(CR + 'range::') and ctx.F.bodies[p]['kind'] in ('Fn', 'AssocFn', 'Closure'):
             check_panics(ctx, P.B(p), 'C20.3-range-arith', kinds=('overflow', 'div0', 'partial'), key_prefix='OVERFLOW')
             check_casts(ctx, P.B(p), 'C20.3-range-arith', include_float=False)
+
+    # membership: the stride is counted from `first` (the element iteration starts from), whatever the direction
+    ctx.rule('C20.3-membership-anchor', 'contains() tests the stride on the distance between the value and `first`: every remainder in it divides (value - first) or (first - value); '
+             'measuring from `last` selects the wrong residue class whenever last is not itself an element (10..0//-3)', floor=1)
+    CB = P.B(CR + 'range::ElixirRange::contains')
+    if ctx.anchor(CB is not None, CR + 'range::ElixirRange::contains'):
+        k = 0
+        for bb, j, st in CB.stmts():
+            if not (st['k'] == '=' and st['rv']['k'] == 'bin' and st['rv']['op'] == 'Rem'):
+                continue
+            k += 1
+            inst = 'contains:rem#%d' % k
+            a = canon(CB, st['rv']['a'])
+            leaves = []
+
+            def walk(c):
+                if isinstance(c, tuple) and c and c[0] in ('bin',):
+                    walk(c[2]); walk(c[3])
+                elif isinstance(c, tuple) and c and c[0] in ('cast', 'un'):
+                    walk(c[-1])
+                else:
+                    leaves.append(c)
+            walk(a)
+            txt = ' '.join(str(x) for x in leaves)
+            # definitions of any plain local among the leaves (a `(low, high)` tuple chosen by a conditional)
+            for x in leaves:
+                base = x[1] if isinstance(x, tuple) and x[0] == 'place' else x
+                if isinstance(base, tuple) and base[0] == 'local':
+                    for bb2, j2, st2 in CB.stmts():
+                        if st2['k'] == '=' and st2['pl']['l'] == base[1]:
+                            if st2['rv']['k'] == 'agg':
+                                txt += ' ' + ' '.join(str(canon(CB, o)) for o in st2['rv']['ops'])
+                            elif st2['rv']['k'] == 'use':
+                                txt += ' ' + str(canon(CB, st2['rv']['op']))
+            is_sub = isinstance(a, tuple) and a[0] == 'bin' and a[1] == 'Sub'
+            if "'last'" in txt:
+                ctx.bad('C20.3-membership-anchor', inst, 'the stride test divides a distance measured from `last` (%s): for a range whose last bound is not an element the members are rejected and non-members accepted' % describe(CB, a),
+                        ctx.where(CB, ln=st['ln']), key='SHAPE:%srange::ElixirRange::contains:anchor-last' % CR)
+            elif is_sub and "'first'" in txt and any(x == ('arg', 2) for x in leaves):
+                ctx.ok('C20.3-membership-anchor', inst, 'remainder of %s' % describe(CB, a), ctx.where(CB, ln=st['ln']))
+            else:
+                ctx.undecided('C20.3-membership-anchor', inst, 'dividend %s not recognised as the distance between the value and first' % describe(CB, a))
 
     # ---------------- clause 4: 64-bit fields across the wire --------------------------------------------------------------
     ctx.rule('C20.4-wide-fields', 'a field written from an i64/u64 comes back from the wire as Integer or BigInt; a reader that uses as_integer() sees only the Integer variant', floor=1)
